@@ -21,3 +21,4 @@ import Mb2.Props.FnsIter
 import Mb2.Props.FnsMisc
 import Mb2.Props.FnsEfi
 import Mb2.Props.FnsElfOpen
+import Mb2.Props.FnsCtor
